@@ -1662,8 +1662,16 @@ def check_find_clashes(chk, fi, radii: Dict[str, float], extra: float) -> Option
         opts, c, want = d
         thr = radii.get(c.ta, 0) + radii.get(c.tb, 0) + (extra if opts["enable_molprobity_mode"] else 0.0) if c.ta in radii and c.tb in radii else None
         R = ce.radius.get(tuple(opts[k] for k in OPTIONS)) or []
+        gone = ""
+        if want:
+            tag_ = ("big", tuple(opts[k] for k in OPTIONS))
+            pts_ = ce.points.get(tag_)
+            for atom_ in (c.a, c.b):
+                if pts_ is not None and not any(atom_ is x for x in pts_) and not gone:
+                    last_ = ce.trace.last.get((tag_, atom_.k))
+                    gone = f"; atom {atom_.name} (occupancy {atom_.occupancy}) is never put into the KD-tree" + (f": dropped at line {getattr(last_[0], 'lineno', '?')} where `{norm(last_[0])[:60]}` is {last_[1]}" if last_ else "")
         reach = f"; the KD-tree search radius {R[0]:.2f} A does not reach it" if want and len(set(R)) == 1 and c.dist > R[0] else ""
-        return f"with {optstr(opts)} the pair [{c.describe()}] is {'not listed but is a clash' if want else 'listed but is not a clash'} by the definition" + (f" (threshold {thr:.2f} A{reach})" if thr is not None else "")
+        return f"with {optstr(opts)} the pair [{c.describe()}] is {'not listed but is a clash' if want else 'listed but is not a clash'} by the definition" + (f" (threshold {thr:.2f} A{reach}{gone})" if thr is not None else gone)
 
     slices = []
     for mp in (False, True):
@@ -1710,11 +1718,39 @@ TOK = re.compile(r"«[^»]+»")
 NUM = re.compile(r"(?<![\w.«])-?\d+(?:\.\d+)?(?:[eE][-+]?\d+)?(?![\w.»])")
 
 
+class SwitchS(str):
+    """value of a boolean command-line switch: a token naming the switch; truthy in the run where the switches are given"""
+
+    on = True
+
+    def __bool__(self):
+        return self.on
+
+
+def _has_switch(v, depth=0):
+    """the switch token a value carries (itself, or inside a list / tuple / dict / set), else None"""
+    if isinstance(v, str) and v.startswith("«o") and v.endswith("»"):
+        return v
+    if depth < 3 and isinstance(v, (list, tuple, set, frozenset, SetS)):
+        for x in v:
+            t = _has_switch(x, depth + 1)
+            if t:
+                return t
+    if depth < 3 and isinstance(v, dict):
+        for x in list(v.keys()) + list(v.values()):
+            t = _has_switch(x, depth + 1)
+            if t:
+                return t
+    return None
+
+
 class Capture:
     def __init__(self):
         self.lines: List[str] = []
         self.rows: List[List[Any]] = []
         self.find_args: List[Tuple[tuple, dict]] = []
+        self.reader_args: List[Tuple[tuple, dict]] = []  # calls of read_3d_structure
+        self.structure: List[Any] = []  # the residues of the structure the reader stub returns
         self.sites: List[Tuple[Any, List[Tuple[str, float]]]] = []  # per printed line: (print statement, numbers it formats)
         self.switches: List[Tuple[str, str, str, tuple]] = []  # declared arguments: (command-line name, action, dest, option strings)
         self.namespace: Dict[str, Any] = {}
@@ -1822,8 +1858,10 @@ def representative_clashes():
 
 
 class MainEval:
-    def __init__(self, repo, mn, clashes, csv_path: Optional[str], reverse_sets: bool):
+    def __init__(self, repo, mn, clashes, csv_path: Optional[str], reverse_sets: bool, switches_on: bool = True):
         self.cap = cap = Capture()
+        # the structure of the input file: a nucleotide of a polynucleotide chain, a nucleotide ligand, an amino acid
+        cap.structure = [ResidueS("«cA»", 1, [], True, token="«sA1»"), ResidueS("«cA»", 201, [], True, token="«sA201 nucleotide ligand»", name="2BA"), ResidueS("«cB»", 7, [], False, token="«sB7 amino acid»", name="ALA")]
         SetS.reverse = reverse_sets
         try:
             class Parser(Stub):
@@ -1844,7 +1882,8 @@ class MainEval:
                         action = k.get("action", "store")
                         kind = action if isinstance(action, str) else "other"
                         if kind in ("store_true", "store_false"):
-                            value = f"«o{ident}»"
+                            value = SwitchS(f"«o{ident}»")
+                            value.on = switches_on
                         elif ident == "csv":
                             value = csv_path
                         else:
@@ -1901,6 +1940,18 @@ class MainEval:
                 cap.find_args.append((a, k))
                 return list(clashes)
 
+            def read_3d_structure(*a, **k):
+                """the parser as its signature says: with a truthy `nucleic_acid_only` it keeps the residues of polynucleotide
+                entities only (its own criterion: the nucleotide ligand and the amino acid are gone)"""
+                cap.reader_args.append((a, k))
+                try:
+                    rparams = [p_.arg for p_ in repo.func("parser", "read_3d_structure").node.args.args]
+                except Exception:
+                    rparams = []
+                flag = dict(zip(rparams, a), **k).get("nucleic_acid_only", False)
+                kept = cap.structure[:1] if flag else cap.structure
+                return types.SimpleNamespace(_folder_stub=True, residues=list(kept))
+
             def read_metadata(f, *a, **k):
                 cap.meta_args.append(f)
                 return MetaS()
@@ -1940,7 +1991,7 @@ class MainEval:
             env.update(
                 argparse=ns(_folder_stub=True, ArgumentParser=lambda *a, **k: Parser()),
                 open=fopen,
-                read_3d_structure=lambda *a, **k: ns(_folder_stub=True, residues=["«residues»"]),
+                read_3d_structure=read_3d_structure,
                 find_clashes=find_clashes,
                 read_metadata=read_metadata,
                 print=out,
@@ -1963,6 +2014,65 @@ def _tokens(text: str):
     toks = TOK.findall(text)
     nums = [float(x) for x in NUM.findall(TOK.sub(" ", text))]
     return toks, nums
+
+
+def check_cli_structure(chk, mn, fi, cap: "Capture", cap_off: "Capture") -> None:
+    """Fact-level `cli-structure`: the tool lists what find_clashes gives for the input file under the chosen options, so
+    the structure handed to find_clashes is the whole structure of the file - read the same way whatever the switches
+    are, and handed over with every residue find_clashes would consider (the option filters are applied once, by
+    find_clashes)."""
+    chk.robust |= {"cli-structure"}
+    repo = chk.repo
+    rsite = next((mn.site(n) for n in ast.walk(mn.node) if isinstance(n, ast.Call) and norm(n.func).split(".")[-1] == "read_3d_structure"), mn.where)
+    fsite = next((mn.site(n) for n in ast.walk(mn.node) if isinstance(n, ast.Call) and norm(n.func).split(".")[-1] == "find_clashes"), mn.where)
+    try:
+        rparams = [a.arg for a in repo.func("parser", "read_3d_structure").node.args.args]
+    except Exception:
+        rparams = []
+
+    def bind(call):
+        a, k = call
+        names = rparams + [f"argument {i + 1}" for i in range(len(rparams), len(a))]
+        b = dict(zip(names, a))
+        b.update(k)
+        return b
+
+    plainv = lambda v: ("file", v.name) if isinstance(v, FileS) else v
+    problems: List[str] = []
+    if len(cap.reader_args) != 1 or len(cap_off.reader_args) != 1:
+        chk.error("cli-structure", rsite, f"main reads the structure {len(cap.reader_args)} times on the representative run, not once: not decided which structure find_clashes receives")
+        return
+    on, off = bind(cap.reader_args[0]), bind(cap_off.reader_args[0])
+    for name, v in on.items():
+        t = _has_switch(v)
+        if t:
+            problems.append(f"read_3d_structure receives the value of switch --{t[2:-1].replace('_', '-')} as its parameter `{name}`: the structure handed to find_clashes is already filtered by the parser's own criterion, and find_clashes applies the option a second time by its own (Residue3D.is_nucleotide etc.) - the tool lists only what passes both, not what find_clashes gives for the file")
+    if not problems and {k: plainv(v) for k, v in on.items()} != {k: plainv(v) for k, v in off.items()}:
+        diff = [k for k in on if plainv(on.get(k)) != plainv(off.get(k))] or sorted(set(on) ^ set(off))
+        problems.append(f"the arguments of read_3d_structure depend on the switches (`{diff[0]}` is `{str(on.get(diff[0]))[:30]}` with and `{str(off.get(diff[0]))[:30]}` without them): the structure handed to find_clashes is not the file's structure whatever the options")
+    chk.expect(not problems, "cli-structure", rsite, f"the structure is read the same way with and without the switches ({', '.join(f'{k}={str(plainv(v))[:30]}' for k, v in on.items())}): no option reaches the parser", problems[0] if problems else "", _K(mn, "reader-args"), found={k: str(plainv(v))[:40] for k, v in on.items()})
+    # the residues handed over
+    params = [a.arg for a in fi.node.args.args]
+    msgs: List[str] = []
+    unread = None
+    for label, c, need in (("with all switches given", cap, [r for r in cap.structure if r.is_nucleotide]), ("without any switch", cap_off, list(cap_off.structure))):
+        if len(c.find_args) != 1:
+            return  # reported by cli-arguments
+        a, k = c.find_args[0]
+        got = dict(zip(params, a), **k).get(params[0])
+        if not isinstance(got, (list, tuple)) or any(not any(x is r for r in c.structure) for x in got):
+            unread = f"the first argument of find_clashes ({label}) is `{str(got)[:60]}`, not residues of the structure read from the input file"
+            continue
+        need = [r for r in c.structure if any(r is x for x in need)]
+        missing = [r for r in need if not any(r is x for x in got)]
+        if missing:
+            msgs.append(f"{label} find_clashes does not receive residue {missing[0].token[1:-1]} of the input structure although it would consider it: the residues are filtered before find_clashes applies the options")
+        elif [x for x in got if any(x is r for r in need)] != need or len(got) != len({id(x) for x in got}):
+            msgs.append(f"{label} find_clashes receives the residues of the structure reordered or repeated")
+    if unread and not msgs:
+        chk.error("cli-structure", fsite, unread)
+    else:
+        chk.expect(not msgs, "cli-structure", fsite, "find_clashes receives every residue of the structure read from the input file that it would consider (all three kinds without switches; both nucleotides - chain member and ligand - with them)", msgs[0] if msgs else "", _K(mn, "residues-handed"))
 
 
 def check_cli_binding(chk, mn, fi, cap: "Capture") -> None:
@@ -1999,9 +2109,6 @@ def check_cli_binding(chk, mn, fi, cap: "Capture") -> None:
         chk.error("cli-arguments", site, f"CLI options passed to find_clashes not understood: {unread[0]}")
     else:
         chk.expect(not wrong, "cli-arguments", site, "every option parameter of find_clashes receives the value of the switch of the same name (evaluated call, positional or keyword)", f"CLI options are not passed to find_clashes parameters of the same name: {'; '.join(wrong[:3])}", _K(mn, "cli-args"), expected=expected, found={p_: (f"--{str(bound.get(p_))[2:-1].replace('_', '-')}" if str(bound.get(p_)).startswith("«o") else str(bound.get(p_))[:40]) for p_ in params[1:]})
-    res_ok = bound.get(params[0]) == ["«residues»"]
-    if not res_ok:
-        chk.error("cli-arguments", site, f"the first argument of find_clashes is `{str(bound.get(params[0]))[:60]}`, not the residues of the structure read from the input file")
     # the switches are the options
     sw = {ident: kind for ident, kind, dest, flags in cap.switches if kind in ("store_true", "store_false")}
     false_ = sorted(i for i, kd in sw.items() if kd == "store_false" and i in params)
@@ -2025,6 +2132,7 @@ def check_main(chk, mn, fi=None) -> Optional[str]:
             runs[rev] = MainEval(repo, mn, L, "/out/«csv».csv", rev)
         no_csv = MainEval(repo, mn, L, None, False)
         empty = MainEval(repo, mn, [], "/out/«csv».csv", False)
+        off = MainEval(repo, mn, L, "/out/«csv».csv", False, switches_on=False)
     except Unknown as ex:
         return str(ex)
     except Raised as ex:
@@ -2043,6 +2151,12 @@ def check_main(chk, mn, fi=None) -> Optional[str]:
     chk.robust |= {"report-clashes", "report-grouping", "report-maxima", "report-loops"}
     if fi is not None:
         check_cli_binding(chk, mn, fi, cap)
+        check_cli_structure(chk, mn, fi, cap, off.cap)
+    listed_ = lambda c: ([ln for ln in c.lines if TOK.search(ln)], [r for r in c.rows if any(isinstance(x, str) and TOK.search(x) for x in r)])
+    if listed_(off.cap) != listed_(cap):
+        problems_early = "the report / CSV of the same clash list differs between runs with and without the switches: main itself filters or changes what find_clashes returned"
+    else:
+        problems_early = ""
     # read_metadata(file) reads file.name: it needs the open file, not the path string
     chk.robust |= {"csv-metadata-arg"}
     msite = next((mn.site(n) for n in ast.walk(mn.node) if isinstance(n, ast.Call) and norm(n.func).split(".")[-1] == "read_metadata"), site)
@@ -2106,6 +2220,8 @@ def check_main(chk, mn, fi=None) -> Optional[str]:
     # ---- listed clashes = the clashes -----------------------------------------------------------------------------
     problems: Dict[str, List[str]] = {}
     add = lambda rule, msg: problems.setdefault(rule, []).append(msg)
+    if problems_early:
+        add("report-clashes", problems_early)
     printed = []
     for (ch, rs_list) in tree:
         for (rh, atom_lines) in rs_list:
